@@ -184,7 +184,8 @@ class Engine:
         self.pc.append(c)
 
     def feasible(self, c):
-        v, _, _ = smt.check(self.pc + [c])
+        # path feasibility: z3 only (an undecided query keeps the path -- sound); cvc5 is reserved for obligations
+        v, _, _ = smt.check(self.pc + [c], strings_fallback=False)
         return v != 'unsat'
 
     def valid(self, c):
@@ -1379,6 +1380,11 @@ class Engine:
             e = VExc('Exception', [], sym=True, uid=self.fresh('exc'))
             self.trace.append(('raised-by', getattr(fn, 'name', repr(fn))))
             raise PyRaise(e)
+        if callable(getattr(fn, 'proto', None)):
+            # a contract-supplied abstract behaviour for this callable (recorded on the trace like any other call)
+            r = fn.proto(self, fn, list(args))
+            self.trace.append(('returned', getattr(fn, 'name', repr(fn)), getattr(r, 'name', repr(r)), r))
+            return r
         r = self.fresh_opaque('ret')
         if getattr(fn, 'proto', None) == 'int-valued':
             self.tfacts[(r.name, 'int')] = True
@@ -1492,6 +1498,8 @@ class Engine:
             return True
         if isinstance(v, VRef):
             h = self.heap[v.addr]
+            if isinstance(h, HObj) and h.cls is None and h.name == 'tainted':
+                return self.truth_term(h.fields['value'])      # __len__ of the raw value
             if isinstance(h, HList):
                 return self.list_len(h) > 0
             if isinstance(h, HDict):
@@ -1574,6 +1582,9 @@ class Engine:
 
     def to_str(self, v):
         """str(v) for formatting purposes"""
+        if isinstance(v, VRef) and isinstance(self.heap[v.addr], HObj) and self.heap[v.addr].cls is None \
+                and self.heap[v.addr].name == 'tainted':
+            return self.to_str(self.heap[v.addr].fields['value'])
         if isinstance(v, VC):
             if isinstance(v.v, bytes):
                 raise Unsupported('str(bytes)')
